@@ -1713,6 +1713,12 @@ def run_conc(rep, dh, wd, keys, rng, n_steered, n_soak, soak_size, gomaxprocs, w
         for kind, prefix, parks, cops, workers in scen:
             lines += ["reset"] + cfg + conc.scenario_lines(prefix, parks, cops, workers)
         impl, crashed, err = run_impl(dh, wd, lines, env=env, timeout=1200)
+        if crashed and not any(o.startswith("TIMEOUT") for o in impl) and not any(w_ in err for w_ in ("panic:", "fatal error:", "DATA RACE")):
+            # the harness process ended without a watchdog report and without a Go panic / runtime error of its own (killed from
+            # outside, out of memory, ...): run the same input once more; whatever it does then is what is judged
+            rep.cov["harness_reruns"] = rep.cov.get("harness_reruns", 0) + 1
+            rep.cov.setdefault("harness_rerun_stderr", []).append(err[-300:])
+            impl, crashed, err = run_impl(dh, wd, lines, env=env, timeout=1200)
         # walk the output
         pos = 0
         jl, jmeta = [], []
